@@ -107,6 +107,14 @@ PROPS = {
         "open_statements": ["bilinear_cells (needs C04 neighbours_complete)", "bilinear_mean"],
         "assumptions": COMMON_ASSUME,
     },
+    "C16": {
+        "claim": "Theorems on the table and decision tree REGENERATED from src/lib.rs on every run: the 30 limits are strictly decreasing (exact dyadic comparison) and are the values of the bit patterns the crate uses; for EVERY comparison function and table the unrolled binary search returns d<=29 with r<T[d] and (d=29 or not r<T[d+1]) whenever the guard passes (30 leaves, all f64 incl. NaN); the guard refuses exactly when has_best_starting_depth is false; depth-0 constants. ConstantsC2V::new, the three envelopes, the scalar/vector _with_radius variants (fmod, f64::max/min, debug assertions) are modelled generically and compared bit for bit. The geometric claims are MEASURED (labelled test): envelope >= true centre-to-farthest-vertex distance exhaustively to depth 5 (quick)/8 (thorough) and on border classes to depth 29; _with_radius against cells whose centre lies in the cone; thresholds recovered from the implementation by bisection = the table; rim witnesses for the 9-cell claim. Findings F7, F12, F13 recorded as known findings with classifiers.",
+        "note": "PARTIAL: table/decision-tree logic proved (a swapped index or changed literal breaks the proof and the failing r is read off the branch); the spherical-geometry inequalities are not provable by this technique and are measured. Known findings are reported as KNOWN-FINDING lines.",
+        "level": "proof",
+        "trusted_base": ["translator/rs2lean.py: grammar of nested if/else-if over SMALLER_EDGE2OPEDGE_DIST[k] with integer leaves; f64 literals through Python's correctly rounded float()", "Model/C2V.lean: hand-written generic mirror of ConstantsC2V::new and the envelopes"],
+        "open_statements": ["c2v_with_radius_is_sup", "envelopes dominate the true distance (geometry; measured)", "nine-cells claim (geometry; measured)"],
+        "assumptions": COMMON_ASSUME,
+    },
     "C15": {
         "claim": 'Theorems: each pack pass never lengthens the list, pack ends on a fixed point of the pass (a further pass merges nothing), to_lower_depth rejects new_depth>=depth_max. The fixed-depth builder is modelled as a state machine with explicit drain points and compared with the code for all push-sequence families x 9 capacities x 9 depths; pack/to_lower_depth on exhaustive universes and random trees; oracles check pushed-set equality, map preservation, no four full siblings, the lower-depth rule.',
         "note": 'PARTIAL proof: structural pack theorems proved; pack_sem/fixed_builder_sem/to_lower_depth_sem open. Trusted: Lean kernel, hand-written model, Vec capacity assumption.',
